@@ -24,7 +24,7 @@ CLAIM = dict(
               "translator for dispatch tables, differential correspondence over a closed operand universe",
     design="7/C01")
 
-MODULES = ["Klong.Props.C01", "Klong.Props.C01Struct", "Klong.Props.C01Ext1", "Klong.Props.C01Ext2"]
+MODULES = ["Klong.Props.C01", "Klong.Props.C01Struct", "Klong.Props.C01Ext1", "Klong.Props.C01Ext2", "Klong.Props.C01Ext3"]
 THEOREMS = [
     "Klong.C01.atomic_dyad_correct",
     "Klong.C01.atomic_monad_correct",
@@ -43,9 +43,11 @@ THEOREMS += [
 THEOREMS += ["Klong.C01.Ext1.cut_correct", "Klong.C01.Ext1.cutSegs_correct", "Klong.C01.Ext1.join_correct", "Klong.C01.Ext1.index_correct", "Klong.C01.Ext1.find_str_correct", "Klong.C01.Ext1.finditer_correct", "Klong.C01.Ext1.find_list_correct", "Klong.C01.Ext1.match_correct", "Klong.C01.Ext1.kgEqual_correct", "Klong.C01.Ext1.first_correct", "Klong.C01.Ext1.size_correct", "Klong.C01.Ext1.enumerate_correct", "Klong.C01.Ext1.atom_correct", "Klong.C01.Ext1.list_correct", "Klong.C01.Ext1.not_correct", "Klong.C01.Ext1.index_negative_witness", "Klong.C01.Ext1.index_degenerate_witness", "Klong.C01.Ext1.index_mixed_witness", "Klong.C01.Ext1.join_mixed_witness", "Klong.C01.Ext1.join_raises_witness", "Klong.C01.Ext1.match_charstr_witness", "Klong.C01.Ext1.cut_outside_witness", "Klong.C01.Ext1.examples_witness"]
 THEOREMS += ["Klong.C01.Ext2.expand_correct", "Klong.C01.Ext2.floor_correct", "Klong.C01.Ext2.transpose_correct", "Klong.C01.Ext2.grade_sorts", "Klong.C01.Ext2.grade_stable", "Klong.C01.Ext2.grade_unique", "Klong.C01.Ext2.grade_correct", "Klong.C01.Ext2.range_str_correct", "Klong.C01.Ext2.range_ints_correct", "Klong.C01.Ext2.range_rows_correct", "Klong.C01.Ext2.range_obj_correct", "Klong.C01.Ext2.range_kinds_kept", "Klong.C01.Ext2.range_chr_str_collision", "Klong.C01.Ext2.implGroupKeys_eq", "Klong.C01.Ext2.group_str_correct", "Klong.C01.Ext2.group_ints_correct", "Klong.C01.Ext2.group_spec", "Klong.C01.Ext2.shapeA_ref", "Klong.C01.Ext2.shape_correct", "Klong.C01.Ext2.shape_atom_correct", "Klong.C01.Ext2.shape_deviation", "Klong.C01.Ext2.npReshape_window", "Klong.C01.Ext2.reshape_correct"]
 
-ATOMIC_DYADS = ["+", "-", "*", "&", "|", "<", ">", "=", "!", ":%"]
+THEOREMS += ["Klong.C01.Ext3.amend_list_correct", "Klong.C01.Ext3.amend_str_correct", "Klong.C01.Ext3.amend_in_depth_correct", "Klong.C01.Ext3.amend_in_depth_any_correct", "Klong.C01.Ext3.amend_in_depth_vec_correct", "Klong.C01.Ext3.aidRec_slow", "Klong.C01.Ext3.multiSet_nat", "Klong.C01.Ext3.shape_agree", "Klong.C01.Ext3.index_in_depth_correct", "Klong.C01.Ext3.divide_correct", "Klong.C01.Ext3.power_correct", "Klong.C01.Ext3.scalarPow_value", "Klong.C01.Ext3.reciprocal_correct", "Klong.C01.Ext3.char_correct", "Klong.C01.Ext3.undefined_correct", "Klong.C01.Ext3.format_correct", "Klong.C01.Ext3.pyInt_parseInt", "Klong.C01.Ext3.pyInt_noDigit", "Klong.C01.Ext3.form_atom_correct", "Klong.C01.Ext3.amend_examples_witness", "Klong.C01.Ext3.amend_members_witness", "Klong.C01.Ext3.amend_grow_witness", "Klong.C01.Ext3.amend_kind_witness", "Klong.C01.Ext3.amend_outside_witness", "Klong.C01.Ext3.depth_examples_witness", "Klong.C01.Ext3.depth_value_witness", "Klong.C01.Ext3.depth_repack_witness", "Klong.C01.Ext3.arith_witness", "Klong.C01.Ext3.power_nested_witness", "Klong.C01.Ext3.char_witness", "Klong.C01.Ext3.format_witness", "Klong.C01.Ext3.form_witness", "Klong.C01.Ext3.form_list_witness", "Klong.C01.Ext3.undefined_witness"]
+
+ATOMIC_DYADS = ["+", "-", "*", "&", "|", "<", ">", "=", "!", ":%", "%", "^"]
 STRUCT_DYADS = ["#", "_", ":+", ":#", ":_", "~", ",", "@", "?", ":^"]
-MONADS = ["-", "|", "*", "#", "!", "&", "?", "=", "@", ",", "^", "+", "~", "_"]
+MONADS = ["-", "|", "*", "#", "!", "&", "?", "=", "@", ",", "^", "+", "~", "_", "%", ":#", ":_", "$"]
 
 # verbs of the reference and the Python function the dispatch table must name for them
 EXPECT_DYADS = {"+": "eval_dyad_add", "-": "eval_dyad_subtract", "*": "eval_dyad_multiply",
@@ -195,7 +197,7 @@ def gen_cases(ctx):
     nums = [v for v in U.OPERANDS if U.depth(v) == 0 and v[0] in "ir" or v[0] == 'L']
     atoms_cmp = [v for v in U.ATOMS if v[0] in "cy"] + U.STRS
     for verb in ATOMIC_DYADS:
-        pool = nums if verb in ("+", "-", "*", "&", "|", "!", ":%") else nums + atoms_cmp
+        pool = nums if verb in ("+", "-", "*", "&", "|", "!", ":%", "%", "^") else nums + atoms_cmp
         if verb in ("!", ":%"):
             pool = [v for v in pool if U.int_only(v)]
         for a in pool:
@@ -277,6 +279,9 @@ def gen_cases(ctx):
     for a in [U.S("abc"), U.L(U.L(), U.I(1)), U.Y("a"), U.I(-3)]:
         for verb in ("~", "#", "!"):
             cases.append(("M", verb, a, None))
+    # ---- extension 3: Amend, Amend-in-Depth, Index-in-Depth, Divide/Power edges, Char, Format, Form
+    from . import c01_ext3_cases
+    cases += c01_ext3_cases.extra_cases(U, seqs)
     if quick:
         monads = [c for c in cases if c[0] == "M"]
         dyads = [c for c in cases if c[0] == "D"]
@@ -359,6 +364,10 @@ def classify_failure(c, ref, real):
     if (any(U.has_mixed_numeric_level(o) for o in ops) or mixed_numeric_array(ref)) \
             and real[0] != 'E' and U.veq(ref, real, kinds=False):
         return "mixed-numeric-level"
+    if ar == "D" and verb in (":=", ":-") and real[0] != 'E' and U.veq(ref, real, kinds=False):
+        return "amend:integer-into-real-array"
+    if ar == "D" and verb in (":=", ":-") and b[0] == 'L' and b[1] and b[1][0][0] == 'L' and real[0] != 'E':
+        return "amend:repack-broadcast"
     return f"{ar}{verb}:" + ":".join(shape_class(o) for o in ops)
 
 
